@@ -179,7 +179,8 @@ def pipeline_diag(work, driver, cases, limit=400, tag="pipe"):
     # first in line because the layer-3 models are evaluated on components up to a size bound;
     # spline cases only where the router cannot hang (known findings of C01), and always with the monitor (it carries the corridors)
     import random as _random
-    pool = [c for c in cases if c["n"] + len(c["edges"]) <= 40 and (c.get("p5") != "splines" or not core.case_facts(c)["_degenerate_corridor_or_bk"])]
+    # (the pipeline specification models the WMedian ordering phase: calls without an ordering phase are outside it)
+    pool = [c for c in cases if c.get("p3") != "noop" and c["n"] + len(c["edges"]) <= 40 and (c.get("p5") != "splines" or not core.case_facts(c)["_degenerate_corridor_or_bk"])]
     if len(pool) > limit:
         pool = _random.Random(20260926).sample(pool, limit)
     sub = [dict(c, stages=1, reps=0, case=i + 1, mon=1 if (i % 2 == 0 or c.get("p5") == "splines") else c.get("mon", 0))
